@@ -10,6 +10,7 @@ structure DocD where
   id : String
   issuerEmpty : Bool
   noES : Bool := false   -- the document names no end-session (and no revocation) endpoint
+  present : List String := []   -- the members of the decoded answer that are non-empty strings
   deriving Inhabited
 
 def ns : Int := 1000000000
@@ -22,10 +23,17 @@ structure St where
   script : List (Outcome DocD)
   final : DocD            -- the provider is healthy once the script is exhausted
 
-def parseOutcome (j : Json) : Outcome DocD :=
+/-- an answer as the HTTP client sees it; what counts as provider metadata is decided by the model (`classify`, with the members
+    `fetchMetadata` requires as extracted from /repo), not by the harness -/
+def parseAnswer (j : Json) : Answer DocD :=
   match jS j "k" with
-  | "ok" => .ok { id := jS j "doc", issuerEmpty := jB j "issuerEmpty", noES := jB j "noES" } (jI j "dur")
-  | _ => .fail (jI j "dur")
+  | "doc" =>
+    let present := jStrs j "present"
+    .json { id := jS j "doc", issuerEmpty := !(present.contains "issuer"), noES := jB j "noES", present := present } (jI j "dur")
+  | "ok" => .json { id := jS j "doc", issuerEmpty := jB j "issuerEmpty", noES := jB j "noES", present := Current.metadataRequired } (jI j "dur")
+  | _ => if jS j "kind" == "refused" || jS j "kind" == "slowfail" then .noAnswer (jI j "dur") else .notMetadata (jI j "dur")
+
+def parseOutcome (j : Json) : Outcome DocD := classify Current.metadataRequired (·.present) (parseAnswer j)
 
 /-- the script followed by enough healthy answers -/
 def fullScript (st : St) : List (Outcome DocD) := st.script ++ List.replicate 1500 (.ok st.final 0)
@@ -47,7 +55,7 @@ def step (st : St) (j : Json) : St × Option Json :=
   match jS j "op" with
   | "dcfg" =>
     ({ t0 := jI j "t0", script := (jA j "outcomes").toList.map parseOutcome,
-       final := { id := jS j "finalDoc", issuerEmpty := false, noES := jB j "finalNoES" } }, none)
+       final := { id := jS j "finalDoc", issuerEmpty := false, noES := jB j "finalNoES", present := Current.metadataRequired } }, none)
   | "dreq" =>
     let at_ := jI j "at"
     let giveUp : Option Int := (j.getObjValAs? Int "giveUp").toOption
